@@ -797,6 +797,10 @@ def aref_case(contract, build_extra, call, zargs, describe, ret=handle_ret):
     def c_(seed):
         def build(rnd):
             env = new_autoref(rnd)
+            if rnd.random() < .25:
+                # dynamic reordering on, threshold low enough to fire inside the call (every operand is a live handle)
+                env['m'].configure(reordering=True)
+                env['b']._last_len = rnd.choice([1, 2, 3])
             build_extra(env, rnd)
             return env
         return Case(contract, seed, build, call, zargs, describe, ret=ret)
